@@ -17,7 +17,7 @@ from sim.driver import Report
 PROP = "C12"
 TIERS = {"quick": {"pairs": 100, "envs": 7, "budget": 70.0}, "thorough": {"pairs": 1200, "envs": 12, "budget": 1500.0}}
 SCRATCH = "/dev/shm" if os.path.isdir("/dev/shm") else tempfile.gettempdir()
-E0 = {"route": "api", "heap": 0, "dir_seed": 0, "clock": "2001-02-03T04:05:06", "history": [], "cache": 0, "repeat": 1, "history_same_package": 0, "environ": None, "source_copy": None}
+E0 = {"route": "api", "heap": 0, "dir_seed": 0, "clock": "2001-02-03T04:05:06", "history": [], "cache": 0, "repeat": 1, "history_same_package": 0, "environ": None, "source_copy": None, "config_version": None, "config_text": None, "source_spelling": None, "optimize": 0}
 ROUTES = ["api", "api_file", "cli_flags", "cli_config", "cli_mixed"]
 
 
@@ -141,6 +141,10 @@ def gen_env(rng, srcs):
     if rng.random() < 0.3:
         # the version stamp of a project file written by another release; it is not an option
         env["config_version"] = rng.choice(["24.1", "23.8", "99.1", "", "unknown"])
+    if rng.random() < 0.25:
+        env["config_text"] = sorted(rng.sample(["bool10", "comment", "nodecl", "crlf", "bom"], rng.choice([1, 1, 2, 3])))
+    if rng.random() < 0.25:
+        env["source_spelling"] = rng.choice(["rel", "dot", "slash", "dotdot"])
     if rng.random() < 0.1:
         env["optimize"] = 1  # python -O
     if rng.random() < 0.12:
